@@ -1,6 +1,6 @@
 """C10 - URI encode/decode are total, lossless inverses with RFC 3986 output."""
 PROP = 'C10'
-LEAN_MODULES = ['FalconModel.UriEncodeProofs', 'FalconModel.Utf8']
+LEAN_MODULES = ['FalconModel.UriEncodeProofs', 'FalconModel.Utf8', 'FalconModel.Utf8Enc', 'FalconModel.Utf8Proofs', 'FalconModel.UriStr', 'FalconModel.UriStrProofs']
 DRIVERS = ['uddriver']
 THEOREMS = [
     # falcon.util.uri.decode: the three code paths = the left-to-right reference decoder (round 0)
@@ -17,6 +17,18 @@ THEOREMS = [
     'Uri.checkEscaped_rejects_G1', 'Uri.checkEscaped_keeps_lower',
     # parse_host on the valid authority forms
     'Uri.parseHost_plain', 'Uri.parseHost_port', 'Uri.parseHost_v6', 'Uri.parseHost_v6_port',
+    # UTF-8: bytes.decode('utf-8','replace') (U8.decodeReplace) against str.encode() (U8.encode)
+    'U8.decodeReplace_encode', 'U8.decodeReplace_encodeCp', 'U8.decodeReplace_encode_surrogate_witness', 'U8.decodeReplace_total', 'U8.decodeFuel_stable',
+    'U8.decodeReplace_cons', 'U8.decodeReplace_ascii', 'U8.decodeReplace_length_le', 'U8.step_val', 'U8.decodeReplace_scalar', 'U8.decodeReplace_no_surrogates',
+    'U8.encode?_decodeReplace', 'U8.decodeReplace_encode_decodeReplace', 'U8.encodeCp_high', 'U8.mem_encode_ascii', 'U8.encode_map_toNat', 'U8.encode_injective',
+    # str level: the transcription of decode / the four encoders / parse_host on code points (Us.*) refines the byte-level model, and the lifted theorems
+    'Us.decode_eq_bytes', 'Us.encodeStr_eq_bytes', 'Us.encodeCheckStr_eq_bytes', 'Us.encode_replacePlus', 'Us.contains_encode', 'Us.all_allowedCp', 'Us.looksEscapedS_eq',
+    'Us.decode_encode_value_str', 'Us.decode_encode_uri_str', 'Us.decode_encodeStr', 'Us.decode_encode_uri_str_plus_witness', 'Us.decode_str_total',
+    'Us.encodeStr_charset', 'Us.encodeValue_charset', 'Us.encode_charset', 'Us.encodeStr_grammar', 'Us.encodeValue_grammar', 'Us.encode_grammar', 'Us.encode_encodeStr',
+    'Us.allowedValue_ascii', 'Us.allowedUri_ascii',
+    'Us.encodeCheckStr_idem', 'Us.encodeCheckStr_fixpoint', 'Us.encodeCheckEscaped_idem', 'Us.encodeValueCheckEscaped_idem',
+    'Us.encodeCheckEscaped_fixpoint', 'Us.encodeValueCheckEscaped_fixpoint',
+    'Us.parseHost_plain', 'Us.parseHost_port', 'Us.parseHost_v6', 'Us.parseHost_v6_port', 'Us.parseHost_bytes_differs_witness',
 ]
 STATEMENTS = {
     'Probe.decodeImpl_eq_ref': 'for every byte string, the implementation of decode (no-% fast path; < 8 tokens in-place loop; >= 8 tokens bytearray joiner) equals the left-to-right reference decoder: well-formed %XX -> byte, anything else literal',
@@ -32,9 +44,34 @@ STATEMENTS = {
     'Uri.parseHost_v6_port': 'parse_host("[" inner "]:" port) = (inner, port | default) whenever the port text contains no "]" - whatever the bracketed text contains (the LAST "]:" splits)',
     'Uri.parseHost_v6': 'parse_host("[" inner "]") = (inner, default) when inner contains no "]"',
     'Uri.parseHost_plain': 'a host without ":" that does not start with "[" is returned whole with the default port',
+    'U8.decodeReplace_encode': 'for every string s of Unicode scalar values: s.encode("utf-8").decode("utf-8", "replace") = s (the replace-decoder inverts the encoder; per code point for each of the 1/2/3/4-byte classes, with arbitrary bytes following)',
+    'U8.decodeReplace_encode_surrogate_witness': 'the scalar-value hypothesis is necessary: the 3-byte pattern of U+D800 decodes to three U+FFFD',
+    'U8.decodeReplace_total': 'the fuel of the decoder model never runs out: any fuel >= the input length gives the same result, i.e. the whole input is consumed',
+    'U8.decodeReplace_ascii': 'on bytes < 0x80 the decoder is the identity',
+    'U8.decodeReplace_length_le': 'the decoder emits at most one code point per input byte',
+    'U8.step_val': 'each iteration emits an ASCII value, U+FFFD, or a code point in 0x80..0x7FF / 0x800..0xD7FF / 0xE000..0xFFFF / 0x10000..0x10FFFF',
+    'U8.decodeReplace_scalar': 'for EVERY byte string, every code point of the decoded str is a Unicode scalar value (no surrogate, < 0x110000)',
+    'U8.encode?_decodeReplace': 'the decoded str can always be encoded again (no UnicodeEncodeError)',
+    'U8.mem_encode_ascii': 'an ASCII byte occurs in s.encode() iff that character occurs in s (so "%" in s / "+" in s can be tested on either side)',
+    'U8.encode_injective': 'distinct strings of scalar values have distinct UTF-8 encodings',
+    'Us.decode_eq_bytes': 'for every str s of scalar values, the str-level transcription of decode (str tests, str.replace, the short-circuit returning the str itself, encode() only on the slow path) = decodeReplace(byte-level decode(s.encode()))',
+    'Us.encodeStr_eq_bytes': 'the str-level encoder (rstrip fast path returning the str, join of encode_char results) = the byte-level encoder on s.encode(), read as ASCII characters (needs: the allowed table is ASCII, proved for both tables)',
+    'Us.encodeCheckStr_eq_bytes': 'the same refinement for the check-escaped encoders, including str.split("%") and the hex-digit test on characters',
+    'Us.decode_encode_value_str': 'decode(encode_value(s), unquote_plus) = s for EVERY str s of Unicode scalar values and both settings of unquote_plus - at str level, through str.encode() and bytes.decode("utf-8","replace")',
+    'Us.decode_encode_uri_str': 'decode(encode(s), unquote_plus=False) = s for every str s of Unicode scalar values',
+    'Us.decode_encode_uri_str_plus_witness': 'decode(encode("a+b"), unquote_plus=True) = "a b" (str level): why whole-URI encoding needs unquote_plus=False',
+    'Us.decode_str_total': 'decode returns a str of Unicode scalar values for every input str of scalar values (never a lone surrogate; re-encodable)',
+    'Us.encodeStr_charset': 'every character of an encoder result is ASCII: an allowed character, "%" or an upper-case hex digit',
+    'Us.encodeStr_grammar': 'the encoder result is an ASCII str matching ( allowed | % UPPERHEX UPPERHEX )*',
+    'Us.encodeCheckStr_idem': 'f(f(s)) = f(s) for both check-escaped encoders and every str of scalar values',
+    'Us.encodeCheckStr_fixpoint': 'a str whose UTF-8 bytes match ( allowed | % HEXDIG HEXDIG )* is returned unchanged by the check-escaped encoders',
+    'Us.parseHost_port': 'str level (characters, not bytes; non-ASCII reg-names included): parse_host(host ":" port) = (host, port text | default when empty) for host, port without ":" and host not starting with "["',
+    'Us.parseHost_v6_port': 'str level: parse_host("[" inner "]:" port) = (inner, port | default) whenever the port text has no "]"',
+    'Us.parseHost_bytes_differs_witness': 'on "[é" (no closing bracket) host[1:-1] removes the CHARACTER é; the byte-level model Uri.parseHost would leave the lone byte C3 - the str-level model Us.parseHost is the faithful one for non-ASCII input',
 }
 TRUSTED = [
-    'str <-> UTF-8 bytes: the models work on s.encode(); CPython str.encode()/bytes.decode("utf-8","replace") are modelled by FalconModel.Utf8 (tied by the correspondence, no theorem about it)',
+    'CPython str.encode() / bytes.decode("utf-8","replace") themselves: modelled by U8.encode / U8.decodeReplace (transcriptions, compared with CPython on every generated string incl. all UTF-8 length-class boundaries, '
+    'the surrogate gap and ill-formed escapes); what IS proved is that the two models are inverse on scalar values and that the decoder only emits scalar values',
     'urllib.parse.unquote_to_bytes and the re module inside the independent oracle',
     'int() on ASCII digit strings (parse_host port)',
 ]
@@ -45,14 +82,17 @@ ASSUMPTIONS = [
     'the Cython twin falcon/cyutil/uri.pyx cannot be rebuilt offline and is not exercised (source mode blocks falcon.cyutil)',
 ]
 RULE = ('ALL strings of length <= 3 (quick) / <= 4 (thorough) over the 18-letter alphabet {% + 0 9 A F a f g / ? - ~ space NUL e-acute euro U+1F600} '
-        '(6 175 / 111 151 strings, enumerated completely, split over the shards), plus random strings built from alphabet letters, well-formed escapes '
+        '(6 175 / 111 151 strings, enumerated completely, split over the shards), plus all pairs over the UTF-8 boundary code points U+007F U+0080 U+07FF U+0800 U+D7FF U+E000 U+FFFD U+FFFF U+10000 U+10FFFF '
+        '(also next to % / + / escapes), plus random code-point strings over the whole range (10 % with a lone surrogate: str.encode() only, UnicodeEncodeError expected), plus random strings built from alphabet letters, well-formed escapes '
         '(ASCII, valid multi-byte UTF-8, invalid UTF-8), malformed escapes and "+" with 0..2 000 pieces (up to ~8 KB; a quarter have 5..10 "%" to sit on the 8-token '
         'path switch), plus RFC 3986 authorities (reg-name / IPv4 / IP-literal x port absent, empty, 1-5 digits) with single-character mutations, plus RFC 7230 quoted-strings. '
-        'Each string goes through decode (unquote_plus True/False), encode, encode_value, encode_check_escaped, encode_value_check_escaped. '
+        'Each string goes through decode (unquote_plus True/False), encode, encode_value, encode_check_escaped, encode_value_check_escaped - every call is compared with the byte-level model '
+        '(on s.encode()) AND with the str-level model (on the code points), together with s.encode(), s.encode().decode("utf-8","replace") and decode(encode*(s)); authorities also with non-ASCII characters (str-level parse_host). '
         'non-trivial = some function changed the string (an escape, a "+" or a character that needs escaping); distinct = distinct (kind, input string)')
-PARTIAL = ('proved on UTF-8 bytes: decode = reference, output grammar, both round trips, check-escaped fixpoint/idempotence, parse_host on valid authorities. '
-           'Not proved: the final bytes->str step (UTF-8 with replacement is a transcribed model, tied by correspondence only; the str-level round trip additionally '
-           'needs decodeReplace(utf8(s)) = s, not stated), unquote_string (oracle only).')
+PARTIAL = ('proved on UTF-8 bytes AND on str (code points): decode = reference, output grammar (ASCII), both round trips, check-escaped fixpoint/idempotence, parse_host on valid '
+           'authorities; the str-level functions are separate transcriptions proved to refine the byte-level ones through U8.encode / U8.decodeReplace, with decodeReplace(encode(s)) = s proved. '
+           'Not proved: that U8.encode / U8.decodeReplace are CPython\'s codecs (transcribed, tied by correspondence); what decode does with an ill-formed UTF-8 escape sequence is only characterised as '
+           '"scalar values out, U+FFFD for ill-formed parts" (no theorem pins the maximal-subpart grouping); unquote_string (oracle only); int() beyond ASCII digits.')
 JOBS = {'quick': 4, 'thorough': 16}
 
 ALPHABET = ['%', '+', '0', '9', 'A', 'F', 'a', 'f', 'g', '/', '?', '-', '~', ' ', '\x00', 'é', '€', '\U0001F600']
@@ -186,6 +226,7 @@ def run(ctx):
         for k, f, isval in CHK:
             e = call(f, s)
             sess.op(f'enc {k} {h}', hx(e.encode('utf-8')) if isinstance(e, str) else 'EXC:' + type(e).__name__)
+            sess.op(f'senc {k} {c}', cps(e) if isinstance(e, str) else 'EXC:' + type(e).__name__)                     # str-level model (Us.encode*CheckEscaped)
             if not isinstance(e, str):
                 bad = bad or f'{f.__name__} raised {type(e).__name__}: {e}'
                 continue
@@ -387,11 +428,11 @@ def _mutate(rnd, a):
     return a[:i] + c + a[i + 1:]
 
 
-LEVEL_TEXT = ('Machine-checked proofs (Lean 4) on UTF-8 byte strings: every code path of falcon.util.uri.decode equals the left-to-right reference decoder; '
+LEVEL_TEXT = ('Machine-checked proofs (Lean 4) on UTF-8 byte strings and, lifted through a proved-inverse pair of UTF-8 encoder / replace-decoder models, on str (code points): every code path of falcon.util.uri.decode equals the left-to-right reference decoder; '
               'the encoders emit exactly ( allowed | %XX upper-case )* for both allowed tables; decode(encode_value(s)) = s and decode(encode(s), unquote_plus=False) = s '
               '(with the witness that the latter needs unquote_plus=False); the check-escaped encoders fix every fully escaped string and are idempotent; parse_host returns '
               '(host, port) on reg-name/IPv4/IP-literal authorities with absent, empty or numeric port. The model is tied to falcon/util/uri.py on every run by a differential '
               'correspondence over the complete bounded string space plus long random strings, and an independent oracle written from the statement decides failing inputs.')
-LEVEL_NOTE = ('Trusted: Lean kernel + standard axioms; the harness and oracle; CPython str.encode / UTF-8 replace-decoding (modelled, tied by correspondence, not proved); '
+LEVEL_NOTE = ('Trusted: Lean kernel + standard axioms; the harness and oracle; that the UTF-8 models are CPython\'s str.encode / replace-decoding (transcribed, tied by correspondence; their inverse law is proved); '
               'unquote_string is oracle-only. The Cython twin is not exercised.')
-TECHNIQUE = 'Lean 4 proofs about a transcribed model (3 decode paths, 4 encoders, parse_host) + exhaustive-bounded and random differential correspondence + statement oracle'
+TECHNIQUE = 'Lean 4 proofs about a transcribed model (3 decode paths, 4 encoders, parse_host; byte level and str level with a refinement theorem between them; UTF-8 codec pair) + exhaustive-bounded and random differential correspondence + statement oracle'
